@@ -12,7 +12,7 @@ Traces == File.traces
 VARIABLES heap, out, tid, l
 tvars == <<heap, out, tid, l>>
 
-C == INSTANCE Continuum WITH Obj <- 1..File.nobj, Zero <- File.zero, EmitEdges <- FALSE
+C == INSTANCE Continuum WITH Obj <- 1..File.nobj, Zero <- File.zero, EmitEdges <- FALSE, Mutant <- "none"
 
 T == Traces[tid]
 E == T[l]                      \* the line being consumed
